@@ -56,6 +56,19 @@ type c16case struct {
 	Mid   []*TNode `json:"mid,omitempty"`   // optional middle level: block overrides extending Base; Tmpl then extends Mid
 	Child bool     `json:"child,omitempty"` // Tmpl is a list of block overrides extending Base (or Mid)
 	Data  *TData   `json:"data"`
+	// Hist: a history on ONE engine (Base is loaded once): per step, optionally render the base itself (only before the
+	// first child exists), load a child that overrides every block of the base, render that child once or twice.
+	// Only the base-before-any-child and the most recently loaded child are rendered: what a child load does to the base
+	// and to older children is the listed finding of C17, not this lane's business.
+	Hist []c16step `json:"hist,omitempty"`
+}
+
+type c16step struct {
+	PreBase bool     `json:"pre_base,omitempty"` // render the base first (honoured only in step 0)
+	Tmpl    []*TNode `json:"tmpl"`               // block overrides (all blocks of the base)
+	Data    *TData   `json:"data"`
+	Data2   *TData   `json:"data2,omitempty"` // a second render of the same child with other data
+	Entry   int      `json:"entry"`
 }
 
 func (c16) Gen(r *sim.Rand, c *sim.Case, tier string) {
@@ -64,6 +77,10 @@ func (c16) Gen(r *sim.Rand, c *sim.Case, tier string) {
 		g.HostileV = r.Bool()
 		g.LoopVarsInNested = true
 		g.MissingNested = true
+	}
+	if !Wild && r.Chance(0.08) {
+		c16genHist(r, c)
+		return
 	}
 	inherit := r.Chance(0.25)
 	if inherit && !Wild {
@@ -104,6 +121,119 @@ func (c16) Gen(r *sim.Rand, c *sim.Case, tier string) {
 	c.Tasks = [][]sim.Op{{{K: "c16", S: []sim.Str{sim.Str(b)}, I: []int{r.Intn(2)}}}}
 	c.Order = orderPolicy(r)
 	c.OrderSeed = r.Uint64()
+}
+
+// c16genHist: the engine-history lane.
+func c16genHist(r *sim.Rand, c *sim.Case) {
+	g := &TGen{R: r.Fork(), Else: true, Nested: r.Bool(), Newlines: r.Chance(0.5)}
+	nb := r.Range(1, 3)
+	var base []*TNode
+	for i := 0; i < nb; i++ {
+		base = append(base, g.Seq(1)...)
+		base = append(base, &TNode{Kind: "block", Name: fmt.Sprintf("b%d", i), Kids: []*TNode{g.lit(), {Kind: "var", Name: tVars[r.Intn(len(tVars))]}}})
+	}
+	base = append(base, g.lit())
+	cc := &c16case{Base: base, Data: g.Data()}
+	for k, n := 0, r.Range(2, 4); k < n; k++ {
+		st := c16step{PreBase: k == 0 && r.Bool(), Data: g.Data(), Entry: r.Intn(2)}
+		for i := 0; i < nb; i++ {
+			st.Tmpl = append(st.Tmpl, &TNode{Kind: "block", Name: fmt.Sprintf("b%d", i), Kids: []*TNode{g.lit(), {Kind: "var", Name: tVars[r.Intn(len(tVars))]}}})
+		}
+		if r.Chance(0.4) {
+			st.Data2 = g.Data()
+		}
+		cc.Hist = append(cc.Hist, st)
+	}
+	b, _ := json.Marshal(cc)
+	c.Tasks = [][]sim.Op{{{K: "c16", S: []sim.Str{sim.Str(b)}, I: []int{0}}}}
+	c.Order = orderPolicy(r)
+	c.OrderSeed = r.Uint64()
+}
+
+// c16execHist runs the engine-history lane: every render on the one engine equals the reference interpreter's output
+// for that template alone.
+func c16execHist(c *sim.Case, cc *c16case, env *Env) []sim.Violation {
+	simrt.InstallOrder(c.Order, c.OrderSeed, 0, nil)
+	defer simrt.Uninstall()
+	eng := document.NewTemplateEngine()
+	var viol []sim.Violation
+	fail := func(clause, sig, detail string) {
+		viol = append(viol, sim.Violation{Clause: clause, Sig: sig, Detail: detail})
+	}
+	render := func(name string, d *TData, entry int) (string, bool) {
+		var out string
+		sig, pn := Guard(func() {
+			var doc *document.Document
+			var err error
+			if entry == 0 {
+				doc, err = eng.RenderToDocument(name, d.ToLib())
+			} else {
+				doc, err = eng.RenderTemplateToDocument(name, d.ToLib())
+			}
+			if err != nil || doc == nil {
+				out = "render-error"
+				return
+			}
+			out = docText(doc)
+		})
+		if pn {
+			fail("panic", sig, "rendering "+name+" panicked")
+			return "", false
+		}
+		return out, true
+	}
+	sig, pn := Guard(func() {
+		if _, err := eng.LoadTemplate("base", tsrc(cc.Base)); err != nil {
+			fail("render-failed", "history:load-error", "the base template failed to load: "+err.Error())
+		}
+	})
+	if pn {
+		fail("panic", sig, "loading the base panicked")
+	}
+	env.Stats.ProbeN("directives", int64(countDirectives(cc.Base)))
+	for k, st := range cc.Hist {
+		if len(viol) > 0 {
+			break
+		}
+		if k == 0 && st.PreBase {
+			want := normLines(refRender(cc.Base, &refCtx{data: st.Data, overrides: map[string][]*TNode{}}))
+			got, ok := render("base", st.Data, st.Entry)
+			env.Stats.Probe("history_base_renders")
+			if ok && got != want {
+				fail("differs-from-reference", "history:base-before-any-child", fmt.Sprintf("base %q\nreference %q\nrendered  %q", clip(tsrc(cc.Base)), clipAround(want, got), clipAround(got, want)))
+				break
+			}
+		}
+		name := fmt.Sprintf("c%d", k)
+		if _, err := eng.LoadTemplate(name, "{{extends \"base\"}}"+tsrc(st.Tmpl)); err != nil {
+			fail("render-failed", "history:load-error", "child "+name+" failed to load: "+err.Error())
+			break
+		}
+		ov := map[string][]*TNode{}
+		for _, b := range st.Tmpl {
+			ov[b.Name] = b.Kids
+		}
+		for j, d := range []*TData{st.Data, st.Data2} {
+			if d == nil {
+				continue
+			}
+			want := normLines(refRender(cc.Base, &refCtx{data: d, overrides: ov}))
+			got, ok := render(name, d, (st.Entry+j)%2)
+			env.Stats.Probe("history_child_renders")
+			if got != "" {
+				env.Stats.Probe("nonempty_output")
+			}
+			if ok && got != want {
+				cls := "history:child-loaded-after-earlier-renders"
+				if k == 0 && !st.PreBase && j == 0 {
+					cls = "history:first-child"
+				}
+				fail("differs-from-reference", cls, fmt.Sprintf("step %d render %d: base %q child %q\ndata %s\nreference %q\nrendered  %q", k, j, clip(tsrc(cc.Base)), clip(tsrc(st.Tmpl)), clip(d.JSON()), clipAround(want, got), clipAround(got, want)))
+				break
+			}
+		}
+	}
+	return viol
 }
 
 // ---- reference interpreter ------------------------------------------------------
@@ -321,6 +451,9 @@ func (c16) Exec(c *sim.Case, env *Env) []sim.Violation {
 	var cc c16case
 	if err := json.Unmarshal([]byte(op.Str(0)), &cc); err != nil || cc.Data == nil {
 		return nil
+	}
+	if len(cc.Hist) > 0 {
+		return c16execHist(c, &cc, env)
 	}
 	src := tsrc(cc.Tmpl)
 	if cc.Child {
